@@ -146,9 +146,69 @@ def l2_sweep_events(run, rng, quick):
     return len(reqs)
 
 
+def large_step_tree(run, rng, quick):
+    """one-site projector splitting on a tree with complete bond dimensions is exact for ANY step (the projector is the
+    identity): one very large real-time step on four coupled harmonic modes (4 levels each; spectral width * tau of 600-900,
+    i.e. 150-230 Lanczos vectors for the big local problems, far fewer than their dimension) against the dense propagator,
+    plus conservation of energy and norm (Props/C09Conserve `sweep_conserves`).  Family and step range were chosen where the
+    pinned, un-reorthogonalised Lanczos kernel is accurate to 1e-6 (spin trees and local problems whose Krylov dimension
+    approaches the full dimension are not: there the pinned kernel itself loses orthogonality, see DESIGN 10.6)."""
+    import scipy.linalg
+    from renormalizer.model import Op
+    from renormalizer.model.basis import BasisSHO
+    from renormalizer.tn import BasisTree, TTNO, TTNS, TreeNodeBasis
+    from renormalizer.utils import EvolveConfig, EvolveMethod
+    done = 0
+    for _ in range(1 if quick else 4):
+        n, nbas = 4, 4
+        om = rng.uniform(0.8, 1.6, size=n)
+        parent = [[-1, 0, 1, 2], [-1, 0, 0, 2], [-1, 0, 1, 1]][int(rng.integers(3))]
+        nodes = [TreeNodeBasis([BasisSHO(i, float(om[i]), nbas)]) for i in range(n)]
+        for i in range(1, n):
+            nodes[parent[i]].add_child(nodes[i])
+        terms = [Op(r"b^\dagger b", i, float(om[i])) for i in range(n)]
+        for i in range(n):
+            for j in range(i + 1, n):
+                if rng.random() < 0.6:
+                    terms.append(Op("x x", [i, j], float(rng.uniform(0.1, 0.3))))
+        info = dict(parent=parent, omega=om.tolist(), terms=[(t.symbol, list(t.dofs), float(t.factor)) for t in terms])
+        try:
+            basis = BasisTree(nodes[0])
+            ttno = TTNO(basis, terms)
+            h = np.asarray(ttno.todense()).reshape(nbas ** n, nbas ** n)
+            w = np.linalg.eigvalsh(h)
+            np.random.seed(int(rng.integers(2 ** 31)))
+            ttns = TTNS.random(basis, 0, nbas ** (n // 2))
+            ttns.evolve_config = EvolveConfig(EvolveMethod.tdvp_ps)
+            psi0 = np.asarray(ttns.todense()).ravel()
+            tau = float(rng.uniform(600, 900)) / float(w[-1] - w[0])
+            out = ttns.evolve(ttno, tau)
+            got = np.asarray(out.todense()).ravel()
+        except Exception as e:  # noqa
+            run.violation(f"large-step-tree:tdvp_ps:raises:{type(e).__name__}", dict(info, error=repr(e)[:300]))
+            continue
+        ref = scipy.linalg.expm(-1j * tau * h) @ psi0
+        err = float(np.linalg.norm(got - ref) / np.linalg.norm(ref))
+        e0 = float(np.real(np.vdot(psi0, h @ psi0)))
+        e1 = float(np.real(np.vdot(got, h @ got)))
+        drift = abs(e1 - e0) / float(w[-1] - w[0])
+        nrm = abs(float(np.linalg.norm(got)) - float(np.linalg.norm(psi0)))
+        done += 1
+        run.count(f"large-step-tree:shape={parent}")
+        run.sample(dict(part="large-step-tree", rel_err=err, energy_drift_over_width=drift, norm_drift=nrm,
+                        tau_times_width=tau * float(w[-1] - w[0]), bond_dims=[int(b) for b in ttns.bond_dims]), limit=6)
+        info.update(tau=tau, spectral_width=float(w[-1] - w[0]), rel_err=err, energy_drift_over_width=drift, norm_drift=nrm)
+        if err > 1e-3:
+            run.violation("large-step-tree:tdvp_ps:full-bond:vs-expm", dict(info, what="projector splitting at complete bond dimension must "
+                                                                              "reproduce exp(-iHt) for any step size"))
+        if drift > 1e-5 or nrm > 1e-6:
+            run.violation("large-step-tree:tdvp_ps:energy-or-norm-drift", dict(info, what="one-site projector splitting conserves norm and energy"))
+    return done
+
+
 if __name__ == "__main__":
     common.main_wrapper(lambda: generic_check.run_check(
-        "C12", "other", ["RenoVerif/Props/C12.lean", "RenoVerif/Props/C09.lean", "RenoVerif/Props/C09Conserve.lean"], [l2_ps2_counts, l2_sweep_events],
+        "C12", "other", ["RenoVerif/Props/C12.lean", "RenoVerif/Props/C09.lean", "RenoVerif/Props/C09Conserve.lean"], [l2_ps2_counts, l2_sweep_events, large_step_tree],
         ["error orders, conservation laws, agreement with the chain implementation are numerical (dense oracle)",
          "local Krylov exponentials are parameters (C18 contract)"],
         "random spin trees (2-4 nodes + optional dummy) x tdvp_ps2 step: two-site step count vs edges",
